@@ -43,9 +43,11 @@ type loopInfo struct {
 	decr0     Term            // value of variant at loop head
 	headReach Term
 	mods      *modSet
+	assertStart int // index of the first assertion made for this loop (its head, body, nested loops)
 }
 
 type Frame struct {
+	bodyStart int // index of the first assertion made while encoding the body (after axioms and requires)
 	v        *Verifier
 	ctx      *Ctx
 	fn       *ssa.Function
@@ -360,6 +362,9 @@ func (fr *Frame) run() {
 		if li != nil {
 			st = fr.loopHead(li, st, reach)
 		}
+		if cl := fr.exitCutFor(b); cl != nil {
+			st = fr.loopExitCut(cl, b, st, reach)
+		}
 		// instructions
 		for _, ins := range b.Instrs[k:] {
 			st = fr.instr(ins, st, reach)
@@ -582,6 +587,7 @@ func (fr *Frame) loopHead(li *loopInfo, st *State, reach Term) *State {
 		li.spec = &LoopSpec{Ordinal: li.ordinal}
 	}
 	li.preState = st
+	li.assertStart = len(fr.ctx.asserts)
 	// entry check with merged phi values (already in fr.vals)
 	for j, inv := range li.spec.Invariants {
 		env := fr.specEnv(st, fr.oldSt)
@@ -674,6 +680,101 @@ func (fr *Frame) loopHead(li *loopInfo, st *State, reach Term) *State {
 		hs = fr.pinUnchanged(env, inv.Expr, hs)
 	}
 	li.headState = hs
+	return hs
+}
+
+// exitCutFor: b is the (unique) block in which loop li is left and li has exit clauses.
+func (fr *Frame) exitCutFor(b *ssa.BasicBlock) *loopInfo {
+	for _, li := range fr.loops {
+		if li.spec == nil || len(li.spec.Exits) == 0 || li.body[b] {
+			continue
+		}
+		var exits []*ssa.BasicBlock
+		seen := map[*ssa.BasicBlock]bool{}
+		for lb := range li.body {
+			for _, s := range lb.Succs {
+				if !li.body[s] && !seen[s] {
+					seen[s] = true
+					exits = append(exits, s)
+				}
+			}
+		}
+		if len(exits) != 1 {
+			encFail("loop %d has %d exit blocks; an exit clause needs exactly one", li.ordinal, len(exits))
+		}
+		if exits[0] == b {
+			for _, p := range b.Preds {
+				if !li.body[p] {
+					encFail("loop %d: the exit block is also entered from outside the loop; exit clause not supported", li.ordinal)
+				}
+			}
+			return li
+		}
+	}
+	return nil
+}
+
+// loopExitCut: the exit clauses are proved in the state in which the loop is left; then every heap component written
+// so far is forgotten and only the exit clauses (and the function's frame) are assumed about it. Local values keep
+// their meaning. Later obligations therefore see the loop through its exit clauses, not through its invariants.
+func (fr *Frame) loopExitCut(li *loopInfo, b *ssa.BasicBlock, st *State, reach Term) *State {
+	for j, ex := range li.spec.Exits {
+		env := fr.specEnv(st, fr.oldSt)
+		env.at = b
+		t := fr.v.evalBool(env, ex.Expr)
+		lab := ex.Label
+		if lab == "" {
+			lab = fmt.Sprint(j)
+		}
+		fr.addObl("loop-exit", fmt.Sprintf("loop %d;%s", li.ordinal, lab), implies(reach, t), ex.Text, fmt.Sprintf("%s:%d", shortPath(ex.File), ex.Line), fr.clauseProps(ex), ex.Canary)
+	}
+	mods := &modSet{comps: map[string]string{}, allocates: true}
+	for comp, srt := range fr.touched {
+		mods.comps[comp] = srt
+	}
+	if fr.rootFrame().modifiesAll("*") {
+		mods = &modSet{comps: map[string]string{}, all: true, allocates: true}
+	}
+	for _, t := range fr.frameTerms(st, mods) {
+		fr.addObl("loop-exit-frame", fmt.Sprintf("loop %d;%s", li.ordinal, t.comp), implies(reach, t.term), "frame of "+t.comp+" holds where the loop is left", "", fr.props, false)
+	}
+	// quantified facts stated for the loop (assumed invariants, callee postconditions inside it) are not shown to
+	// obligations after the cut: fewer hypotheses, hence sound, and the solver is not distracted by them
+	cutIdx := len(fr.ctx.asserts)
+	// (everything said since the function body started: the cut's exit clauses are all that is kept of it)
+	for k := fr.rootFrame().bodyStart; k < cutIdx; k++ {
+		t := fr.ctx.asserts[k].term
+		if strings.Contains(t, "(forall ") || strings.Contains(t, "(exists ") {
+			fr.ctx.asserts[k].hideAfter = cutIdx
+		}
+	}
+	fr.ctx.cuts = append(fr.ctx.cuts, cutIdx)
+	hs := havocState(fr.ctx, st, fmt.Sprintf("exit of loop %d", li.ordinal), func(comp string) havocSpec {
+		if mods.all || mods.has(strings.TrimPrefix(comp, "N|")) {
+			return havocSpec{mode: hvAll}
+		}
+		return havocSpec{mode: hvNone}
+	}, mods.allocates)
+	for _, ex := range li.spec.Exits {
+		if ex.Canary {
+			continue
+		}
+		env := fr.specEnv(hs, fr.oldSt)
+		env.at = b
+		t := fr.v.evalBool(env, ex.Expr)
+		fr.ctx.assert(implies(reach, t), "assume exit clause: "+ex.Text)
+	}
+	for _, t := range fr.frameTerms(hs, mods) {
+		fr.ctx.assert(implies(reach, t.term), "assume frame after loop exit "+t.comp)
+	}
+	for _, ex := range li.spec.Exits {
+		if ex.Canary {
+			continue
+		}
+		env := fr.specEnv(hs, fr.oldSt)
+		env.at = b
+		hs = fr.pinUnchanged(env, ex.Expr, hs)
+	}
 	return hs
 }
 
